@@ -281,15 +281,28 @@ func decProtoOne(c *decProtoCase, seq []int, r *core.Rec, wrap func(*decProtoCas
 			key += fmt.Sprint("L", op)
 		case dpCounts:
 			if !fresh {
-				r.Count("decproto_unjudged_calls", 1)
 				// still executed: reading counts must not disturb anything
-				core.Catch(func() {
+				needed := true
+				pi := core.Catch(func() {
 					if d2 != nil {
-						d2.ShardCounts()
+						needed = d2.ShardCounts().RepairNeeded()
 					} else {
-						d1.FileCounts()
+						needed = d1.FileCounts().RepairNeeded()
 					}
 				})
+				if ownOnly && pi == nil && !needed {
+					// the directory was changed only by this object's own Repair calls (possibly interrupted): the
+					// state-independent clause - "no repair needed" must be true of the directory
+					r.Count("decproto_judged_counts_after_own_repair", 1)
+					for i, p := range paths {
+						if b, ok := cur.Get(p); !ok || !bytes.Equal(b, datas[i]) {
+							viol("counts-clean-but-files-differ", "after this object's own (interrupted) Repair its counts say no repair is needed, but %s is not original", p)
+							break
+						}
+					}
+					continue
+				}
+				r.Count("decproto_unjudged_calls", 1)
 				continue
 			}
 			r.Count("decproto_judged_counts", 1)
